@@ -10,8 +10,8 @@
 EXTENDS Integers, Sequences, FiniteSets, TLC, Json, IOUtils
 Trace == ndJsonDeserialize(IOEnv.VERIF_TRACE)
 VL == INSTANCE VerdictLib
-VARIABLES l, tid, sm, rd, accepts, ups, kinds, posts, hdls, sends, msgs, refusedOK, smKnown, dead, verdicts
-tvars == <<l, tid, sm, rd, accepts, ups, kinds, posts, hdls, sends, msgs, refusedOK, smKnown, dead, verdicts>>
+VARIABLES l, tid, sm, tp, rd, accepts, ups, kinds, posts, hdls, sends, msgs, refusedOK, smKnown, dead, verdicts
+tvars == <<l, tid, sm, tp, rd, accepts, ups, kinds, posts, hdls, sends, msgs, refusedOK, smKnown, dead, verdicts>>
 AddV(vs) == IF VL!Record(vs) THEN verdicts + Len(vs) ELSE verdicts
 VP(prop, clause, sig, detail) == [prop |-> prop, clause |-> clause, sig |-> sig, tid |-> tid, idx |-> l, detail |-> detail]
 V(clause, sig, detail) == VP("C13", clause, sig, detail)
@@ -19,30 +19,30 @@ Ev(x) == l <= Len(Trace) /\ Trace[l].ev = x
 E == Trace[l]
 Cnt(q, P(_)) == Cardinality({i \in 1..Len(q) : P(q[i])})
 SeqSet(q) == {q[i] : i \in 1..Len(q)}
-RSig == rd.drop \o ":" \o (IF rd.attempts = <<>> THEN "-" ELSE rd.attempts[1]) \o (IF Len(rd.attempts) > 1 THEN "+" ELSE "")
+RSig == (IF tp = "ws" THEN "ws/" ELSE "") \o rd.drop \o ":" \o (IF rd.attempts = <<>> THEN "-" ELSE rd.attempts[1]) \o (IF Len(rd.attempts) > 1 THEN "+" ELSE "")
 
 NewRound == /\ accepts' = <<>> /\ ups' = <<>> /\ kinds' = <<>> /\ posts' = 0 /\ hdls' = <<>> /\ sends' = <<>> /\ msgs' = <<>> /\ refusedOK' = TRUE
 
-T_Reset == /\ Ev("reset") /\ tid' = E.tid /\ sm' = E.sm /\ rd' = [i |-> 0, drop |-> "none", attempts |-> <<>>, resume |-> "accept"]
+T_Reset == /\ Ev("reset") /\ tid' = E.tid /\ sm' = E.sm /\ tp' = E.transport /\ rd' = [i |-> 0, drop |-> "none", attempts |-> <<>>, resume |-> "accept"]
            /\ NewRound /\ smKnown' = FALSE /\ dead' = FALSE /\ l' = l + 1 /\ UNCHANGED verdicts
 T_Round == /\ Ev("round") /\ rd' = [i |-> E.i, drop |-> E.drop, attempts |-> E.attempts, resume |-> E.resume] /\ NewRound
-           /\ l' = l + 1 /\ UNCHANGED <<tid, sm, smKnown, dead, verdicts>>
+           /\ l' = l + 1 /\ UNCHANGED <<tid, sm, tp, smKnown, dead, verdicts>>
 T_Accept == /\ Ev("accept") /\ accepts' = Append(accepts, E.outcome)
-            /\ l' = l + 1 /\ UNCHANGED <<tid, sm, rd, ups, kinds, posts, hdls, sends, msgs, refusedOK, smKnown, dead, verdicts>>
+            /\ l' = l + 1 /\ UNCHANGED <<tid, sm, tp, rd, ups, kinds, posts, hdls, sends, msgs, refusedOK, smKnown, dead, verdicts>>
 T_Neg == /\ Ev("neg") /\ kinds' = IF E.kind # "fail" THEN Append(kinds, E.kind) ELSE kinds
-         /\ l' = l + 1 /\ UNCHANGED <<tid, sm, rd, accepts, ups, posts, hdls, sends, msgs, refusedOK, smKnown, dead, verdicts>>
+         /\ l' = l + 1 /\ UNCHANGED <<tid, sm, tp, rd, accepts, ups, posts, hdls, sends, msgs, refusedOK, smKnown, dead, verdicts>>
 T_Up == /\ Ev("up") /\ ups' = Append(ups, E.n)
-        /\ l' = l + 1 /\ UNCHANGED <<tid, sm, rd, accepts, kinds, posts, hdls, sends, msgs, refusedOK, smKnown, dead, verdicts>>
+        /\ l' = l + 1 /\ UNCHANGED <<tid, sm, tp, rd, accepts, kinds, posts, hdls, sends, msgs, refusedOK, smKnown, dead, verdicts>>
 T_Post == /\ Ev("post") /\ posts' = posts + 1
-          /\ l' = l + 1 /\ UNCHANGED <<tid, sm, rd, accepts, ups, kinds, hdls, sends, msgs, refusedOK, smKnown, dead, verdicts>>
+          /\ l' = l + 1 /\ UNCHANGED <<tid, sm, tp, rd, accepts, ups, kinds, hdls, sends, msgs, refusedOK, smKnown, dead, verdicts>>
 T_Hdl == /\ Ev("hdl") /\ hdls' = Append(hdls, E.tag)
-         /\ l' = l + 1 /\ UNCHANGED <<tid, sm, rd, accepts, ups, kinds, posts, sends, msgs, refusedOK, smKnown, dead, verdicts>>
+         /\ l' = l + 1 /\ UNCHANGED <<tid, sm, tp, rd, accepts, ups, kinds, posts, sends, msgs, refusedOK, smKnown, dead, verdicts>>
 T_Send == /\ Ev("clisend") /\ sends' = Append(sends, E.n)
-          /\ l' = l + 1 /\ UNCHANGED <<tid, sm, rd, accepts, ups, kinds, posts, hdls, msgs, refusedOK, smKnown, dead, verdicts>>
+          /\ l' = l + 1 /\ UNCHANGED <<tid, sm, tp, rd, accepts, ups, kinds, posts, hdls, msgs, refusedOK, smKnown, dead, verdicts>>
 T_Msg == /\ Ev("srvmsg") /\ msgs' = Append(msgs, E.tag)
-         /\ l' = l + 1 /\ UNCHANGED <<tid, sm, rd, accepts, ups, kinds, posts, hdls, sends, refusedOK, smKnown, dead, verdicts>>
+         /\ l' = l + 1 /\ UNCHANGED <<tid, sm, tp, rd, accepts, ups, kinds, posts, hdls, sends, refusedOK, smKnown, dead, verdicts>>
 T_Refused == /\ Ev("refused") /\ refusedOK' = E.timely
-             /\ l' = l + 1 /\ UNCHANGED <<tid, sm, rd, accepts, ups, kinds, posts, hdls, sends, msgs, smKnown, dead, verdicts>>
+             /\ l' = l + 1 /\ UNCHANGED <<tid, sm, tp, rd, accepts, ups, kinds, posts, hdls, sends, msgs, smKnown, dead, verdicts>>
 
 JudgeRound(e) ==
     LET A == rd.attempts
@@ -68,24 +68,24 @@ JudgeRound(e) ==
 T_Quiet == /\ Ev("quietround")
            /\ verdicts' = IF dead THEN verdicts ELSE AddV(JudgeRound(E))
            /\ smKnown' = ((sm /\ Len(ups) >= 1) \/ (smKnown /\ Len(ups) = 0))
-           /\ l' = l + 1 /\ UNCHANGED <<tid, sm, rd, accepts, ups, kinds, posts, hdls, sends, msgs, refusedOK, dead>>
+           /\ l' = l + 1 /\ UNCHANGED <<tid, sm, tp, rd, accepts, ups, kinds, posts, hdls, sends, msgs, refusedOK, dead>>
 T_RunRet == /\ Ev("runret")
             /\ verdicts' = IF E.timely \/ dead THEN verdicts ELSE AddV(<<V("stop-makes-run-return", E.when, [round |-> rd])>>)
-            /\ l' = l + 1 /\ UNCHANGED <<tid, sm, rd, accepts, ups, kinds, posts, hdls, sends, msgs, refusedOK, smKnown, dead>>
+            /\ l' = l + 1 /\ UNCHANGED <<tid, sm, tp, rd, accepts, ups, kinds, posts, hdls, sends, msgs, refusedOK, smKnown, dead>>
 T_Crash == /\ Ev("crash") /\ verdicts' = AddV(<<V("nothing-panics", RSig, [msg |-> E.msg, round |-> rd])>>) /\ dead' = TRUE
-           /\ l' = l + 1 /\ UNCHANGED <<tid, sm, rd, accepts, ups, kinds, posts, hdls, sends, msgs, refusedOK, smKnown>>
+           /\ l' = l + 1 /\ UNCHANGED <<tid, sm, tp, rd, accepts, ups, kinds, posts, hdls, sends, msgs, refusedOK, smKnown>>
 \* C18 (shared trace): every session - also one re-established by the StreamManager - sends keepalives at the interval
 T_KaObs == /\ Ev("kaobs")
            /\ verdicts' = IF dead \/ 4 * (E.pings + 1) * E.iv >= E.window THEN verdicts
                           ELSE AddV(<<VP("C18", "keepalive-sent-at-the-interval-on-every-session", IF E.n = 1 THEN "first-session" ELSE "re-established-session",
                                         [conn |-> E.n, window |-> E.window, interval |-> E.iv, pings |-> E.pings])>>)
-           /\ l' = l + 1 /\ UNCHANGED <<tid, sm, rd, accepts, ups, kinds, posts, hdls, sends, msgs, refusedOK, smKnown, dead>>
+           /\ l' = l + 1 /\ UNCHANGED <<tid, sm, tp, rd, accepts, ups, kinds, posts, hdls, sends, msgs, refusedOK, smKnown, dead>>
 
 T_Skip == /\ (Ev("fin") \/ Ev("stopinoutage") \/ Ev("note") \/ Ev("errcb") \/ Ev("run") \/ Ev("drop") \/ Ev("stop") \/ Ev("leak") \/ Ev("resumereq") \/ Ev("ping") \/ Ev("event"))
-          /\ l' = l + 1 /\ UNCHANGED <<tid, sm, rd, accepts, ups, kinds, posts, hdls, sends, msgs, refusedOK, smKnown, dead, verdicts>>
+          /\ l' = l + 1 /\ UNCHANGED <<tid, sm, tp, rd, accepts, ups, kinds, posts, hdls, sends, msgs, refusedOK, smKnown, dead, verdicts>>
 T_End == /\ Ev("end") /\ PrintT(<<"VERDICTS", ToJson(VL!All)>>) /\ PrintT(<<"CONSUMED", l>>)
-         /\ l' = l + 1 /\ UNCHANGED <<tid, sm, rd, accepts, ups, kinds, posts, hdls, sends, msgs, refusedOK, smKnown, dead, verdicts>>
-TraceInit == /\ l = 1 /\ tid = 0 /\ sm = FALSE /\ rd = [i |-> 0, drop |-> "none", attempts |-> <<>>, resume |-> "accept"] /\ accepts = <<>> /\ ups = <<>>
+         /\ l' = l + 1 /\ UNCHANGED <<tid, sm, tp, rd, accepts, ups, kinds, posts, hdls, sends, msgs, refusedOK, smKnown, dead, verdicts>>
+TraceInit == /\ l = 1 /\ tid = 0 /\ sm = FALSE /\ tp = "tcp" /\ rd = [i |-> 0, drop |-> "none", attempts |-> <<>>, resume |-> "accept"] /\ accepts = <<>> /\ ups = <<>>
              /\ kinds = <<>> /\ posts = 0 /\ hdls = <<>> /\ sends = <<>> /\ msgs = <<>> /\ refusedOK = TRUE /\ smKnown = FALSE /\ dead = FALSE
              /\ verdicts = 0 /\ VL!InitV
 TraceNext == T_Reset \/ T_KaObs \/ T_Round \/ T_Accept \/ T_Neg \/ T_Up \/ T_Post \/ T_Hdl \/ T_Send \/ T_Msg \/ T_Refused \/ T_Quiet \/ T_RunRet
